@@ -35,6 +35,12 @@ structure Inv (cfg : Conf) (s : St) : Prop where
   /-- the ghost log is exactly the list of transmitted moves -/
   logged : sentMoves s = s.log.map (·.move)
 
+/-- number of thinkers inside `GetMove` among a list -/
+def nRunning (l : List Thinker) : Nat := (l.filter (fun t => t.st = .running)).length
+
+/-- thinkers holding `g.moveLock` (inside `Bot.GetMove`) -/
+def holders (s : St) : Nat := nRunning s.old + (if s.cur.st = .running then 1 else 0)
+
 /-- the server ends the game: `Over`, `Abandoned.` for this game, or the connection closes -/
 def isEnd (cfg : Conf) : Ev → Prop
   | .close => True
